@@ -5,10 +5,10 @@ import vlib, genseq
 
 KINDS = {
     "C01": {"search", "panic", "hang", "mutated", "crash", "callback"},
-    "C02": {"scan"},
+    "C02": {"scan", "crash"},
     "C05": {"callback"},
     "C08": {"shape"},
-    "C09": {"locks", "hang"},
+    "C09": {"locks", "hang", "crash"},
     "C11": {"search", "scan", "panic", "callback", "foreign", "hang", "crash", "mutated"},
     "C12": {"ctor", "panic", "search", "scan", "shape", "crash", "hang"},
 }
